@@ -473,6 +473,47 @@ Snapshot snapshot(const Pool &pool, bool deep) {
   return s;
 }
 
+void check_history_independence(const Pool &pool, std::vector<Violation> &out, const char *where) {
+  sim::Exempt e;
+  for (int i = 0; i < NP; i++) {
+    if (!pool.p[i]) continue;
+    bool bad = false;
+    std::visit(
+        [&](const auto &sp) {
+          using S = std::decay_t<decltype(sp)>;
+          try {
+            const auto &sup = sp.getSupport();
+            size_t n = sup.getEndIndex() - sup.getStartIndex();
+            if (sup.getEndIndex() > sup.getGrid().size() || n < 2 || sp.getCoefficients().size() != n - 1) return;
+            // evaluation points: every grid point of the support and every midpoint
+            std::vector<T> xs;
+            for (size_t k = 0; k < n; k++) {
+              xs.push_back(T::make(sup[k].raw()));
+              if (k + 1 < n) xs.push_back(T::make((sup[k].raw() + sup[k + 1].raw()) / Val(2)));
+            }
+            S twin(Support(sup.getGrid(), sup.getStartIndex(), sup.getEndIndex()), sp.getCoefficients());
+            std::vector<uint64_t> ref(xs.size());
+            for (size_t k = 0; k < xs.size(); k++) ref[k] = twin(xs[k]).bits();  // ascending, pristine
+            for (size_t k = xs.size(); k-- > 0;)                                   // descending, with history
+              if (sp(xs[k]).bits() != ref[k]) bad = true;
+            for (size_t k = 0; k < xs.size(); k += 2)                              // grid points only, ascending
+              if (sp(xs[k]).bits() != ref[k]) bad = true;
+          } catch (const std::exception &) {
+          }
+        },
+        *pool.p[i]);
+    if (bad) {
+      Violation v;
+      v.prop = "C14";
+      v.cls = "evaluation-depends-on-history";
+      v.detail = std::string(where) + ": p" + std::to_string(i) +
+                 " evaluates differently from a pristine spline with the same window and coefficients";
+      out.push_back(v);
+      return;
+    }
+  }
+}
+
 static std::string slot_name(int slot) {
   if (slot < SLOT_S0) return "g" + std::to_string(slot - SLOT_G0);
   if (slot < SLOT_P0) return "s" + std::to_string(slot - SLOT_S0);
